@@ -817,7 +817,7 @@ pub fn run_c10(run: &mut Run) -> Stats {
             (4096, tier.pick(3, 4), 6, None, vec![0, 1, 4096, 5000]),
             (7, tier.pick(3, 4), 1, Some("gzip".to_string()), vec![0, 1, 300]),
         ] {
-            let cfg = crate::stream_mc::Config { chunk: c, level, accept, payload: crate::stream_mc::Payload::Rand, fresh_wakers: fresh };
+            let cfg = crate::stream_mc::Config { chunk: c, level, accept, payload: crate::stream_mc::Payload::Rand, fresh_wakers: fresh, hop_threads: false };
             seq.merge(crate::stream_mc::sweep(&run.prop, &cfg, crate::stream_mc::alphabet(c, false, true, false, Some(sizes)), d, 2));
         }
     }
